@@ -120,6 +120,25 @@ def identical(a, b):
     return len(la) == len(lb) and all(x.dtype == y.dtype and x.shape == y.shape and x.tobytes() == y.tobytes() for x, y in zip(la, lb))
 
 
+def close_up_to_reassociation(a, b):
+    """Observer runs compile a different XLA program (extra outputs for the observers), so float
+    parameters may differ by reassociation-level rounding (measured: 1 ulp, 2e-7 relative); a
+    desynchronised random stream or an observer feeding back into training moves parameters by
+    O(learning rate) = 1e-3.  Integer / bool leaves must be identical."""
+    la, lb = leaves(a), leaves(b)
+    if len(la) != len(lb):
+        return False
+    for x, y in zip(la, lb):
+        if x.dtype != y.dtype or x.shape != y.shape:
+            return False
+        if x.dtype.kind == "f":
+            if not np.allclose(x, y, rtol=1e-4, atol=1e-5):
+                return False
+        elif x.tobytes() != y.tobytes():
+            return False
+    return True
+
+
 def oracle_learn(ctx: Ctx, case):
     name, env_name, hp = case["algo"], case["env"], case["hp"]
     env = make_env(env_name)
@@ -151,11 +170,14 @@ def oracle_learn(ctx: Ctx, case):
         ctx.check(trained, "C11/harness/training-did-not-change-the-policy", tags=tags)
         after = leaves(policy)
         ctx.check(all(x.tobytes() == y.tobytes() for x, y in zip(before, after)), "C11/input-policy-modified", tags=tags)
+        bit_identical_observed = 0
         for kind in case["callback_sets"]:
             obs = run(case["key"], kind)
-            ctx.check(identical(base, obs), "C11/observers-change-the-trained-policy", tags={**tags, "callbacks": kind}, callbacks=kind)
+            ctx.check(close_up_to_reassociation(base, obs), "C11/observers-change-the-trained-policy", tags={**tags, "callbacks": kind}, callbacks=kind)
+            if identical(base, obs):
+                bit_identical_observed += 1
             ctx.check(all(x.tobytes() == y.tobytes() for x, y in zip(before, leaves(policy))), "C11/input-policy-modified", tags=tags)
-        ctx.count(nontrivial=trained and len(case["callback_sets"]) > 0, classes=[name, env_name] + case["callback_sets"], key=[name, env_name, hp, case["key"], case["callback_sets"]])
+        ctx.count(nontrivial=trained and len(case["callback_sets"]) > 0, classes=[name, env_name] + case["callback_sets"] + [f"observer_runs_bit_identical={bit_identical_observed}/{len(case['callback_sets'])}"], key=[name, env_name, hp, case["key"], case["callback_sets"]])
     finally:
         shutil.rmtree(tmp, ignore_errors=True)
 
@@ -176,7 +198,7 @@ def run(ctx: Ctx):
     ctx.rule = (
         "For each of PPO, A2C, REINFORCE, DQN, SAC on CartPole / Pendulum / generated finite MDPs with small drawn "
         "hyper-parameters and keys: learn() twice with identical inputs (bit-identical array leaves required), once with another "
-        "key (must differ), input policy compared with a host copy taken beforehand, and once per observer set (None, [], a no-op "
+        "key (must differ), input policy compared with a host copy taken beforehand, and once per observer set (equal up to reassociation-level rounding: rtol 1e-4 / atol 1e-5, integer leaves exactly; see DESIGN 5.3) (None, [], a no-op "
         "callback, ProgressBar, LoggingCallback with a recording back end, LoggingCallback with Console+TensorBoard, a list of two) "
         "against the unobserved run. Non-trivial: training changed the policy and at least one observer set was attached; distinct "
         "by (algorithm, env, hyper-parameters, key, observer sets)."
